@@ -239,7 +239,7 @@ def strace_run(hexe, mode, script, workdir):
     if p.returncode != 0:
         cleanup_tree(root)
         raise RuntimeError("strace/helper failed rc=%d%s: %s" % (
-            p.returncode, " (an operation of the script did not return within 20 s)" if p.returncode == 3 else "",
+            p.returncode, " (an operation of the script did not return within 60 s)" if p.returncode == 3 else "",
             p.stderr.decode("utf-8", "replace")[-1500:]))
     ps = Parser(root)
     for (tid, name, args, ret, errno) in merged_calls(out):
@@ -388,7 +388,7 @@ def main(tier, seed, replay):
                     st2, w2, m2 = D.differential(res, PROP, hexe, ["-mode=replay", "-file=" + os.path.join(corpus, f), "-scratch=" + workdir], mexe)
                     st["lines"] = st.get("lines", 0) + st2.get("lines", 0); work += w2; mlines += m2
             rnd = random.Random(seed)
-            cases = group_cases(mlines, rnd, 12 if tier == "quick" else 60)
+            cases = group_cases(mlines, rnd, 8 if tier == "quick" else 60)
             ncross = D.vm_crosscheck(res, PROP, cases, "From SL Require Import Base.Bytes FS.Model FS.Run.\nImport ListNotations.")
             # ---- (b) system-call trace validation + crash monitor ----
             if not replay:
